@@ -1,7 +1,9 @@
 import Slu.Model.Struct
 import SluProofs.Lemmas.SymbPack
 import SluProofs.Lemmas.SymbContain
+import SluProofs.Lemmas.RelaxOk
 import SluProofs.Props.C02
+import SluProofs.Props.C10
 import Mathlib.Tactic.Ring
 import Mathlib.Tactic.Linarith
 import Mathlib.Data.List.Nodup
@@ -22,6 +24,13 @@ symbolic phase can hold the factors and no entry is dropped —
   `column_struct_contains_numeric`  Stage 1: the classical column-level structure contains the factors;
   `symbNaive_contains_factors`      Stages 1+2 for ANY exact factorization `B = L·U` over a field;
   `symbNaive_contains_numeric`      the same for the factors computed by the numeric model `LU.luFactor`.
+These three carry the hypothesis `RelaxOk` (no column of a relaxed supernode has an entry above the
+supernode).  The last section DERIVES it from the column elimination tree (Lemmas/RelaxOk.lean: row-merge
+argument) and restates the containment without it, SymmetricMode excluded —
+  `relaxOk_of_coletree`, `relaxOk_of_spPreorder`   `RelaxOk` for `relax_snode` run on the column etree;
+  `symbNaive_contains_factors_coletree`            tree = `coletree` of the columns handed to the factorization;
+  `symbNaive_contains_factors_spPreorder`          tree and columns = what `sp_preorder` returns (no tree hypothesis left);
+  `symbNaive_contains_numeric_coletree`            the numeric model.
 -/
 namespace Slu.Struct
 open Slu
@@ -122,7 +131,7 @@ theorem filter_ge_length (r c : Nat) (h : c ≤ r) : ((List.range r).filter (fun
       subst this
       have : ((List.range r).filter (fun p => r + 1 ≤ p)) = [] := by
         apply List.filter_eq_nil_iff.mpr; intro p hp; simp at hp ⊢; omega
-      simp [this]
+      rw [this]; simp
 
 /-- **C03 (countnz, L part).** The formula of `countnz` for one supernode — `Σ_c (nsupr - c)` — is the
 number of stored positions of L in its rectangle. -/
@@ -317,10 +326,10 @@ computes when every column is its own supernode).
 Relaxed supernodes (R1) need `RelaxOk n cols relaxEnd`: no column of a relaxed supernode `[j..k]` has an
 entry in a row above `j`.  This is what R1's "no U part outside the supernode" presupposes, and it is
 NECESSARY (an entry `B(r,c) ≠ 0`, `r < j ≤ c ≤ k`, generically gives `U(r,c) ≠ 0`, which the prediction
-`ucols[c] = []` does not hold).  It follows from the fact that a relaxed supernode is a subtree of the
-column elimination tree with all its descendants (Lemmas/Relax.lean proves that for `relaxSnode` on a
-postordered forest) when that tree is the column etree of B; this last implication — from the etree of
-`AᵀA` to the pattern of `Pr·A·Pc` in pivot numbering — is NOT proved here, `RelaxOk` is a hypothesis.
+`ucols[c] = []` does not hold).  In this section it is a hypothesis.  It is DERIVED in the next section
+(`relaxOk_of_coletree`, `relaxOk_of_spPreorder`; Lemmas/RelaxOk.lean) from the fact that a relaxed supernode
+is a subtree of the column elimination tree with all its descendants (`relaxSnode_ranges`, Props/C10.lean),
+for every exact factorization with nonzero pivots, unless SymmetricMode.
 With `relaxEnd = fun _ => none` it holds trivially (`relaxOk_none`). -/
 namespace Slu.Symb
 open Slu Slu.Struct
@@ -457,6 +466,323 @@ example : ¬ RelaxOk 4 fillPat (fun j => if j = 2 then some 3 else none) := by
 example :
     let o := symbNaive 4 2 fillPat (fun j => if j = 2 then some 3 else none)
     ((LU.luFactor fillP false).U.getD 3 #[]).getD 0 0 ≠ 0 ∧ 0 ∉ o.ucols[3]! ∧ ¬ o.xsup[o.supno[3]!]! ≤ 0 := by
+  decide +kernel
+
+end Slu.Symb
+
+/-! ### `RelaxOk` from the column elimination tree
+
+Lemmas/RelaxOk.lean proves, for ANY heap-ordered forest `et` on the columns such that two columns sharing a
+row are ancestor and descendant (`ShareDesc`; true of the column elimination tree, `coletree_shareDesc`, and
+stable under the relabelling by a postorder, `shareDesc_relabel`): the structural entries of every row of
+the row-merge model of Gaussian elimination (`RowFill`; rows numbered by their pivot step) lie among the
+ancestors of the row's first column (`rowFill_desc`), so a relaxed supernode that is a whole subtree has no
+entry in a row pivotal before it (`relaxOk_of_subtrees`); and the nonzeros of `L\U` of any exact factorization
+are structural entries (`rowFill_of_LU`).  Here: the instantiations.
+
+Numbering.  `acol c` = rows of column `c` of `A·Pc` in ORIGINAL row numbering (the columns in the order
+the factorization uses, i.e. after `sp_preorder`); `π` = `perm_r` (original row → pivot step); the pattern
+handed to `symbNaive` is `fun c => (acol c).map π` — the shape of `Slu.Symb.permutedCols`.  Only injectivity
+of `π` on the rows `< nr` is used.
+
+Which hypotheses C10 establishes for the real inputs (`SymmetricMode = NO`):
+  * `Heap n et`                                       `coletree_heap`, `spPreorder_perm` (last clause);
+  * `et` postordered (`hpost`)                        `spPreorder_subtrees`;
+  * every relaxed supernode is a whole subtree        `relaxSnode_ranges` (used inside `relaxEndOf_subtrees`);
+  * `coletree` is THE column elimination tree         `coletree_eq_def` + `etreeOfGraph_parent_least` (used inside
+                                                      `coletree_shareDesc`);
+  * the tree `sp_preorder` returns is the relabelled
+    `coletree` of the columns before postordering     `spPreorder_perm` (clauses 4, 5, 7; used inside `shareDesc_spPreorder`).
+So `symbNaive_contains_factors_spPreorder` has NO hypothesis on the tree left: `p` is a permutation (C10 checks
+`isPerm` on every run), the stored row indices are `< m`, `perm_r` is injective, `B = L·U` exactly with
+nonzero pivots.  In `…_coletree` the tree is `coletree` of the very columns that are factored and "postordered"
+is a hypothesis (`spPreorder_subtrees` is about the relabelled tree, which is the `…_spPreorder` form).
+
+NOT covered: SymmetricMode (`relaxEndOf … true`: `heap_relax_snode` on the etree of `A + Aᵀ`, where the
+supernodes are not subtrees of the column etree of the factored matrix); the identification of
+`permutedCols A perm_c perm_r` with `fun c => ((sp_preorder view).col c).map perm_r` (inverse of `perm_c`
+computed by a loop) is by correspondence only. -/
+namespace Slu.Symb
+open Slu Slu.Struct Slu.Order
+
+/-- **what `relax_end` records** (`relaxEndOf … false`, i.e. `relax_snode.c`, on a postordered heap-ordered
+forest): `relaxEnd j = some k` only if `j ≤ k < n` and the columns `j..k` are exactly the subtree of `k`
+(`relaxSnode_ranges`; entries outside `0..n-1` are EMPTY) -/
+theorem relaxEndOf_subtrees (n relax : Nat) (et : Array Nat) (h : Heap n et)
+    (hpost : ∀ v < n, ∃ lo, ∀ u < n, Desc n et u v ↔ lo ≤ u ∧ u ≤ v) :
+    ∀ j k, relaxEndOf n relax et false j = some k →
+      j ≤ k ∧ k < n ∧ ∀ u, u < n → (Desc n et u k ↔ j ≤ u ∧ u ≤ k) := by
+  obtain ⟨hsz, _, hr, _⟩ := relaxSnode_ranges n relax et h hpost
+  intro j k hjk
+  simp only [relaxEndOf, Bool.false_eq_true, if_false] at hjk
+  by_cases hj : j < n
+  · rcases hr j hj with e | ⟨e, he, h1, h2, h3, _⟩
+    · rw [e] at hjk; simp at hjk
+    · rw [he] at hjk
+      simp at hjk
+      subst hjk
+      exact ⟨h1, h2, h3⟩
+  · have : (relaxSnode n relax et).2.getD j (-1) = -1 := by
+      simp [Array.getD_eq_getD_getElem?, hsz, hj]
+    rw [this] at hjk; simp at hjk
+
+/-- **C03 (`RelaxOk`, any tree with `ShareDesc`).**  `et` heap ordered and postordered, two columns of `cols`
+that share a row related in `et`, every pivot row `t < n` structurally nonzero in column `t`
+(`RowFill n cols t t`; `rowFill_diag_of_LU` derives it from `U(t,t) ≠ 0`): the relaxed supernodes
+`relax_snode` finds in `et` satisfy `RelaxOk` for `cols`. -/
+theorem relaxOk_of_etree (n relax : Nat) (cols : Nat → List Nat) (et : Array Nat) (h : Heap n et)
+    (hs : ShareDesc n cols et)
+    (hpost : ∀ v < n, ∃ lo, ∀ u < n, Desc n et u v ↔ lo ≤ u ∧ u ≤ v)
+    (hpiv : ∀ t, t < n → RowFill n cols t t) :
+    RelaxOk n cols (relaxEndOf n relax et false) :=
+  relaxOk_of_subtrees h hs hpiv (relaxEndOf_subtrees n relax et h hpost)
+
+/-- **C03 (`RelaxOk` from the column elimination tree).**  `acol` = columns of `A·Pc` (original row numbers
+`< nr`), `π` injective on the rows (`perm_r`), `et = coletree nr n acol` postordered, pivot rows structurally
+nonzero: the relaxed supernodes of `relax_snode` on `et` have no entry of `Pr·A·Pc` in a row pivotal before
+their first column. -/
+theorem relaxOk_of_coletree (nr n relax : Nat) (acol : Nat → List Nat) (π : Nat → Nat)
+    (hrow : ∀ c, c < n → ∀ i ∈ acol c, i < nr)
+    (hπ : ∀ i, i < nr → ∀ i', i' < nr → π i = π i' → i = i')
+    (hpost : ∀ v < n, ∃ lo, ∀ u < n, Desc n (coletree nr n acol) u v ↔ lo ≤ u ∧ u ≤ v)
+    (hpiv : ∀ t, t < n → RowFill n (fun c => (acol c).map π) t t) :
+    RelaxOk n (fun c => (acol c).map π) (relaxEndOf n relax (coletree nr n acol) false) :=
+  relaxOk_of_etree n relax _ _ (coletree_heap nr n acol).2
+    ((coletree_shareDesc nr n acol hrow).map_rows nr hrow π hπ) hpost hpiv
+
+/-- **the tree `sp_preorder` returns fits the columns it returns**: in `(spPreorder A p false).etree`, of two
+columns of the permuted view `A·Pc` that share a row the later one is an ancestor of the earlier one.  (The
+returned tree is the postorder relabelling of `coletree` of the columns before postordering; this is the
+part of "it is the column elimination tree of `A·Pc`" that the row-merge argument needs.) -/
+theorem shareDesc_spPreorder (A : Pat) (p : Array Nat) (hp : isPerm A.n p = true)
+    (hrow : ∀ r ∈ A.rowind.toList, r < A.m) :
+    ShareDesc A.n ((spPreorder A p false).view A).col (spPreorder A p false).etree := by
+  obtain ⟨_, hperm, _, hpc, hcol, _, hrel, hheap'⟩ := spPreorder_perm A p false hp
+  obtain ⟨_, hplt, _, hpsurj⟩ := (isPerm_iff A.n p).mp hp
+  obtain ⟨_, hqlt, _, hqsurj⟩ := (isPerm_iff A.n _).mp hperm
+  have hrow' : ∀ c, c < A.n → ∀ r ∈ (permView A p).col c, r < A.m := by
+    intro c _ r hr
+    apply hrow
+    unfold View.col slice at hr
+    exact List.mem_of_mem_drop (List.mem_of_mem_take hr)
+  refine shareDesc_relabel (q := fun j => (postOf A p false).getD j 0)
+    (coletree_shareDesc A.m A.n (permView A p).col hrow') hheap' ?_ ?_ hrel ?_
+  · intro j hj; have := hqlt j hj; rwa [firstN_getD _ _ _ hj] at this
+  · intro c hc
+    obtain ⟨j, hj, e⟩ := hqsurj c hc
+    rw [firstN_getD _ _ _ hj] at e
+    exact ⟨j, hj, e⟩
+  · intro j hj
+    obtain ⟨i, hi, e⟩ := hpsurj j hj
+    have h1 := hcol i hi
+    rw [hpc i hi, e] at h1
+    obtain ⟨hb, he⟩ := permView_colbeg A p hp i hi
+    rw [e] at hb he
+    show ((spPreorder A p false).view A).col ((postOf A p false).getD j 0) = (permView A p).col j
+    rw [h1]
+    have hri : (permView A p).rowind = A.rowind := rfl
+    simp only [View.col, Pat.col]
+    rw [hb, he, hri]
+
+/-- **C03 (`RelaxOk`, real inputs).**  For every stored pattern `A` (row indices `< m`), every column
+permutation `p`, every `relax`, every injective `π` (`perm_r`), `SymmetricMode = NO`: with the view and the
+tree `sp_preorder` returns, `relax_end = relax_snode(etree)` satisfies `RelaxOk` for `Pr·A·Pc`, provided every
+pivot row is structurally nonzero in its pivot column. -/
+theorem relaxOk_of_spPreorder (A : Pat) (p : Array Nat) (hp : isPerm A.n p = true)
+    (hrow : ∀ r ∈ A.rowind.toList, r < A.m) (relax : Nat) (π : Nat → Nat)
+    (hπ : ∀ i, i < A.m → ∀ i', i' < A.m → π i = π i' → i = i')
+    (hpiv : ∀ t, t < A.n → RowFill A.n (fun c => (((spPreorder A p false).view A).col c).map π) t t) :
+    RelaxOk A.n (fun c => (((spPreorder A p false).view A).col c).map π)
+      (relaxEndOf A.n relax (spPreorder A p false).etree false) := by
+  have hrow' : ∀ c, c < A.n → ∀ r ∈ ((spPreorder A p false).view A).col c, r < A.m := by
+    intro c _ r hr
+    apply hrow
+    unfold View.col slice at hr
+    exact List.mem_of_mem_drop (List.mem_of_mem_take hr)
+  exact relaxOk_of_etree A.n relax _ _ (spPreorder_perm A p false hp).2.2.2.2.2.2.2
+    ((shareDesc_spPreorder A p hp hrow).map_rows A.m hrow' π hπ) (spPreorder_subtrees A p hp) hpiv
+
+/-- `symbNaive_contains_factors` with `RelaxOk` derived: any heap-ordered postordered `et` with `ShareDesc` -/
+theorem symbNaive_contains_factors_etree {K : Type} [Field K] (n maxsuper relax : Nat) (B L U : Nat → Nat → K)
+    (cols : Nat → List Nat) (et : Array Nat)
+    (hcols : ∀ i < n, ∀ j < n, B i j ≠ 0 → i ∈ cols j)
+    (hB : ∀ i < n, ∀ j < n, B i j = ∑ t ∈ Finset.range n, L i t * U t j)
+    (hL1 : ∀ i < n, L i i = 1) (hL0 : ∀ i < n, ∀ t < n, i < t → L i t = 0)
+    (hU0 : ∀ t < n, ∀ j < n, j < t → U t j = 0) (hUd : ∀ j < n, U j j ≠ 0)
+    (hheap : Heap n et) (hshare : ShareDesc n cols et)
+    (hpost : ∀ v < n, ∃ lo, ∀ u < n, Desc n et u v ↔ lo ≤ u ∧ u ≤ v) :
+    let o := symbNaive n maxsuper cols (relaxEndOf n relax et false)
+    ∀ j < n,
+      (∀ i < n, L i j ≠ 0 → i ∈ (o.rows[o.supno[j]!]!).drop (j - o.xsup[o.supno[j]!]!)) ∧
+      (∀ k < n, U k j ≠ 0 → k ∈ o.ucols[j]! ∨ (o.xsup[o.supno[j]!]! ≤ k ∧ k ≤ j)) :=
+  symbNaive_contains_factors n maxsuper B L U cols _ hcols hB hL1 hL0 hU0 hUd
+    (relaxOk_of_etree n relax cols et hheap hshare hpost
+      (rowFill_diag_of_LU n B L U cols hcols hB hL1 hL0 hU0 hUd))
+
+/-- **C03 (soundness of the predicted structure, column elimination tree).**  `symbNaive_contains_factors`
+WITHOUT the hypothesis `RelaxOk`: `B = Pr·A·Pc = L·U` exactly over a field (L unit lower, U upper,
+`U(j,j) ≠ 0`), `acol` the columns of `A·Pc` in original row numbers `< nr`, `π = perm_r` injective,
+`relax_end` computed by `relax_snode` (`relaxEndOf … false`) from `et = coletree nr n acol`, `et` postordered
+(`hpost`).  Then every nonzero of `L(:,j)` lies in the part of the predicted row list of `j`'s supernode
+that column `j` stores, and every nonzero of `U(:,j)` in the predicted U rows of column `j` or in the
+supernode's own block — for every `maxsuper` and every `relax`. -/
+theorem symbNaive_contains_factors_coletree {K : Type} [Field K] (nr n maxsuper relax : Nat) (B L U : Nat → Nat → K)
+    (acol : Nat → List Nat) (π : Nat → Nat)
+    (hrow : ∀ c, c < n → ∀ i ∈ acol c, i < nr)
+    (hπ : ∀ i, i < nr → ∀ i', i' < nr → π i = π i' → i = i')
+    (hcols : ∀ i < n, ∀ j < n, B i j ≠ 0 → i ∈ (acol j).map π)
+    (hB : ∀ i < n, ∀ j < n, B i j = ∑ t ∈ Finset.range n, L i t * U t j)
+    (hL1 : ∀ i < n, L i i = 1) (hL0 : ∀ i < n, ∀ t < n, i < t → L i t = 0)
+    (hU0 : ∀ t < n, ∀ j < n, j < t → U t j = 0) (hUd : ∀ j < n, U j j ≠ 0)
+    (hpost : ∀ v < n, ∃ lo, ∀ u < n, Desc n (coletree nr n acol) u v ↔ lo ≤ u ∧ u ≤ v) :
+    let o := symbNaive n maxsuper (fun c => (acol c).map π) (relaxEndOf n relax (coletree nr n acol) false)
+    ∀ j < n,
+      (∀ i < n, L i j ≠ 0 → i ∈ (o.rows[o.supno[j]!]!).drop (j - o.xsup[o.supno[j]!]!)) ∧
+      (∀ k < n, U k j ≠ 0 → k ∈ o.ucols[j]! ∨ (o.xsup[o.supno[j]!]! ≤ k ∧ k ≤ j)) :=
+  symbNaive_contains_factors_etree n maxsuper relax B L U _ _ hcols hB hL1 hL0 hU0 hUd
+    (coletree_heap nr n acol).2 ((coletree_shareDesc nr n acol hrow).map_rows nr hrow π hπ) hpost
+
+/-- **C03 (soundness of the predicted structure, real inputs of the symbolic phase).**  The same with the
+tree and the column view `sp_preorder` returns for ANY pattern `A` and ANY column permutation `p`
+(`SymmetricMode = NO`): no hypothesis about the tree is left — heap order, postorder, "is the column
+elimination tree" and "relaxed supernodes are whole subtrees" are theorems of C10. -/
+theorem symbNaive_contains_factors_spPreorder {K : Type} [Field K] (A : Pat) (p : Array Nat) (maxsuper relax : Nat)
+    (B L U : Nat → Nat → K) (π : Nat → Nat)
+    (hp : isPerm A.n p = true) (hrow : ∀ r ∈ A.rowind.toList, r < A.m)
+    (hπ : ∀ i, i < A.m → ∀ i', i' < A.m → π i = π i' → i = i')
+    (hcols : ∀ i < A.n, ∀ j < A.n, B i j ≠ 0 → i ∈ (((spPreorder A p false).view A).col j).map π)
+    (hB : ∀ i < A.n, ∀ j < A.n, B i j = ∑ t ∈ Finset.range A.n, L i t * U t j)
+    (hL1 : ∀ i < A.n, L i i = 1) (hL0 : ∀ i < A.n, ∀ t < A.n, i < t → L i t = 0)
+    (hU0 : ∀ t < A.n, ∀ j < A.n, j < t → U t j = 0) (hUd : ∀ j < A.n, U j j ≠ 0) :
+    let o := symbNaive A.n maxsuper (fun c => (((spPreorder A p false).view A).col c).map π)
+      (relaxEndOf A.n relax (spPreorder A p false).etree false)
+    ∀ j < A.n,
+      (∀ i < A.n, L i j ≠ 0 → i ∈ (o.rows[o.supno[j]!]!).drop (j - o.xsup[o.supno[j]!]!)) ∧
+      (∀ k < A.n, U k j ≠ 0 → k ∈ o.ucols[j]! ∨ (o.xsup[o.supno[j]!]! ≤ k ∧ k ≤ j)) := by
+  have hrow' : ∀ c, c < A.n → ∀ r ∈ ((spPreorder A p false).view A).col c, r < A.m := by
+    intro c _ r hr
+    apply hrow
+    unfold View.col slice at hr
+    exact List.mem_of_mem_drop (List.mem_of_mem_take hr)
+  exact symbNaive_contains_factors_etree A.n maxsuper relax B L U _ _ hcols hB hL1 hL0 hU0 hUd
+    (spPreorder_perm A p false hp).2.2.2.2.2.2.2
+    ((shareDesc_spPreorder A p hp hrow).map_rows A.m hrow' π hπ) (spPreorder_subtrees A p hp)
+
+/-- **C03 (soundness of the predicted structure, numeric model, column elimination tree).**
+`symbNaive_contains_numeric` without `RelaxOk`: rows already in pivot numbering (`piv k = k`), `cols` any
+pattern with row indices `< m` covering the nonzeros of the matrix, `relax_end` from `relax_snode` on
+`coletree m n cols`, postordered. -/
+theorem symbNaive_contains_numeric_coletree {K : Type} [Field K] [Mag K Rat] (laws : LU.MagLaws K) (P : LU.Params K Rat)
+    (hu0 : 0 ≤ P.u) (hu1 : P.u ≤ 1) (hcol : ∀ j, (P.col j).size = P.m) (hsq : P.m = P.n) (b : Bool)
+    (hinfo : (LU.luFactor P b).info = 0) (hpiv : ∀ k < P.n, (LU.luFactor P b).piv.getD k 0 = k)
+    (maxsuper relax : Nat) (cols : Nat → List Nat)
+    (hcols : ∀ i < P.n, ∀ j < P.n, (P.col j).get i ≠ 0 → i ∈ cols j)
+    (hrow : ∀ c, c < P.n → ∀ i ∈ cols c, i < P.m)
+    (hpost : ∀ v < P.n, ∃ lo, ∀ u < P.n, Desc P.n (coletree P.m P.n cols) u v ↔ lo ≤ u ∧ u ≤ v) :
+    let o := symbNaive P.n maxsuper cols (relaxEndOf P.n relax (coletree P.m P.n cols) false)
+    ∀ j < P.n,
+      (∀ i, ((LU.luFactor P b).L.getD j #[]).get i ≠ 0 → i ∈ (o.rows[o.supno[j]!]!).drop (j - o.xsup[o.supno[j]!]!)) ∧
+      (∀ k, ((LU.luFactor P b).U.getD j #[]).getD k 0 ≠ 0 → k ∈ o.ucols[j]! ∨ (o.xsup[o.supno[j]!]! ≤ k ∧ k ≤ j)) := by
+  refine symbNaive_contains_numeric laws P hu0 hu1 hcol hsq b hinfo hpiv maxsuper cols _ hcols ?_
+  have hinfo' := hinfo
+  have hpiv' := hpiv
+  rw [LU.luFactor_eq_run] at hinfo' hpiv'
+  have inv := LU.run_inv laws P hu0 hu1 hcol b P.n hinfo'
+  obtain ⟨hL1, hL0⟩ := LU.inv_entL P _ P.n inv hpiv'
+  obtain ⟨hU0, hUd⟩ := LU.inv_entU P _ P.n inv
+  exact relaxOk_of_etree P.n relax cols _ (coletree_heap P.m P.n cols).2
+    (coletree_shareDesc P.m P.n cols hrow) hpost
+    (rowFill_diag_of_LU P.n (fun i j => (P.col j).get i) (LU.entL _) (LU.entU _) cols hcols
+      (LU.inv_product P _ P.n hsq inv) hL1 hL0 hU0 hUd)
+
+/-! non-vacuity: a 5x5 matrix whose column elimination tree has two leaf subtrees `{0,1}`, `{2,3}` under the
+root 4; `relax = 2` makes both relaxed supernodes of two columns.  `perm_r = (1 0 3 2 4)` is not the identity.
+
+    pivot numbering                      original row numbers of the columns (`rxAcol`)
+        1 1 . . .                        col 0: {0,1}   col 1: {0,1,4}   col 2: {2,3}   col 3: {2,3}   col 4: {0,2,4}
+        1 2 . . 1
+    B = . . 1 1 .   = L·U,  L = I + E(1,0) + E(3,2) + E(4,1),  U = I + E(0,1) + E(1,4) + E(2,3) + E(3,4)
+        . . 1 2 1
+        . 1 . . 2                                                                                      -/
+def rxAcol : Nat → List Nat
+  | 0 => [0, 1]
+  | 1 => [0, 1, 4]
+  | 2 => [2, 3]
+  | 3 => [2, 3]
+  | _ => [0, 2, 4]
+
+def rxPi : Nat → Nat := fun i => [1, 0, 3, 2, 4].getD i i
+
+def rxMat (rows : List (List Rat)) : Nat → Nat → Rat := fun i j => (rows.getD i []).getD j 0
+def rxB := rxMat [[1,1,0,0,0],[1,2,0,0,1],[0,0,1,1,0],[0,0,1,2,1],[0,1,0,0,2]]
+def rxL := rxMat [[1,0,0,0,0],[1,1,0,0,0],[0,0,1,0,0],[0,0,1,1,0],[0,1,0,0,1]]
+def rxU := rxMat [[1,1,0,0,0],[0,1,0,0,1],[0,0,1,1,0],[0,0,0,1,1],[0,0,0,0,1]]
+
+/-- the tree, and the two relaxed supernodes `[0..1]`, `[2..3]` -/
+example : coletree 5 5 rxAcol = #[1, 4, 3, 4, 5] := by decide +kernel
+example : (List.range 5).map (relaxEndOf 5 2 (coletree 5 5 rxAcol) false) = [some 1, none, some 3, none, none] := by
+  decide +kernel
+
+/-- the tree is postordered: the subtrees are `0..0`, `0..1`, `2..2`, `2..3`, `0..4` -/
+theorem rx_post : ∀ v < 5, ∃ lo, ∀ u < 5, Desc 5 (coletree 5 5 rxAcol) u v ↔ lo ≤ u ∧ u ≤ v := by
+  intro v hv
+  refine ⟨[0, 0, 2, 2, 0].getD v 0, fun u hu => ?_⟩
+  rw [desc_iff_mem_order (coletree_heap 5 5 rxAcol).2 (Nat.le_of_lt hv)]
+  revert v u
+  decide +kernel
+
+/-- every hypothesis of `symbNaive_contains_factors_coletree` holds for this matrix … -/
+theorem rx_contains :
+    let o := symbNaive 5 3 (fun c => (rxAcol c).map rxPi) (relaxEndOf 5 2 (coletree 5 5 rxAcol) false)
+    ∀ j < 5,
+      (∀ i < 5, rxL i j ≠ 0 → i ∈ (o.rows[o.supno[j]!]!).drop (j - o.xsup[o.supno[j]!]!)) ∧
+      (∀ k < 5, rxU k j ≠ 0 → k ∈ o.ucols[j]! ∨ (o.xsup[o.supno[j]!]! ≤ k ∧ k ≤ j)) :=
+  symbNaive_contains_factors_coletree 5 5 3 2 rxB rxL rxU rxAcol rxPi (by decide) (by decide) (by decide +kernel)
+    (by decide +kernel) (by decide +kernel) (by decide +kernel) (by decide +kernel) (by decide +kernel) rx_post
+
+/-- … the prediction has the two relaxed supernodes and the singleton `{4}`, and so does `RelaxOk` (derived,
+not assumed; it says e.g. that columns 2, 3 have no entry in the rows 0, 1) -/
+example :
+    let o := symbNaive 5 3 (fun c => (rxAcol c).map rxPi) (relaxEndOf 5 2 (coletree 5 5 rxAcol) false)
+    o.xsup = [0, 2, 4, 5] ∧ o.rows = [[0, 1, 4], [2, 3], [4]] ∧ o.ucols = [[], [], [], [], [0, 1, 2, 3]] := by
+  decide +kernel
+example : RelaxOk 5 (fun c => (rxAcol c).map rxPi) (relaxEndOf 5 2 (coletree 5 5 rxAcol) false) :=
+  relaxOk_of_coletree 5 5 2 rxAcol rxPi (by decide) (by decide) rx_post
+    (rowFill_diag_of_LU 5 rxB rxL rxU _ (by decide +kernel) (by decide +kernel) (by decide +kernel)
+      (by decide +kernel) (by decide +kernel) (by decide +kernel))
+
+/-- the same through `sp_preorder`: `rxA` stores the five columns in the order 4,0,1,2,3 and `p = (4 0 1 2 3)`
+puts them back; every hypothesis of `symbNaive_contains_factors_spPreorder` is decided, none is about the tree -/
+def rxA : Pat := { m := 5, n := 5, colptr := #[0, 3, 5, 8, 10, 12], rowind := #[0, 2, 4, 0, 1, 0, 1, 4, 2, 3, 2, 3] }
+
+example : (spPreorder rxA #[4, 0, 1, 2, 3] false).etree = #[1, 4, 3, 4, 5] ∧
+    (spPreorder rxA #[4, 0, 1, 2, 3] false).permc = #[4, 0, 1, 2, 3] := by decide +kernel
+
+example :
+    let o := symbNaive 5 3 (fun c => (((spPreorder rxA #[4, 0, 1, 2, 3] false).view rxA).col c).map rxPi)
+      (relaxEndOf 5 2 (spPreorder rxA #[4, 0, 1, 2, 3] false).etree false)
+    ∀ j < 5,
+      (∀ i < 5, rxL i j ≠ 0 → i ∈ (o.rows[o.supno[j]!]!).drop (j - o.xsup[o.supno[j]!]!)) ∧
+      (∀ k < 5, rxU k j ≠ 0 → k ∈ o.ucols[j]! ∨ (o.xsup[o.supno[j]!]! ≤ k ∧ k ≤ j)) :=
+  symbNaive_contains_factors_spPreorder rxA #[4, 0, 1, 2, 3] 3 2 rxB rxL rxU rxPi (by decide) (by decide) (by decide)
+    (by decide +kernel) (by decide +kernel) (by decide +kernel) (by decide +kernel) (by decide +kernel) (by decide +kernel)
+
+/-- the hypothesis "the tree is the column elimination tree of the factored columns" cannot be dropped: with
+the rows of column 3 moved to `{0,3}` the SAME tree `#[1,4,3,4,5]` (heap ordered, postordered, same relaxed
+supernodes) no longer has `ShareDesc` — columns 0 and 3 share row 0 but 3 is not an ancestor of 0 — and
+`RelaxOk` fails: column 3 of the supernode `[2..3]` has an entry in pivot row 1 -/
+def rxBad : Nat → List Nat
+  | 3 => [0, 3]
+  | c => rxAcol c
+example : ¬ RelaxOk 5 (fun c => (rxBad c).map rxPi) (relaxEndOf 5 2 (coletree 5 5 rxAcol) false) := by
+  intro h
+  have := h 2 3 (by decide +kernel) 3 (by decide) (by decide) 1 (by decide)
+  omega
+example : ¬ ShareDesc 5 rxBad (coletree 5 5 rxAcol) := by
+  intro h
+  have hd := h 0 3 (by decide) (by decide) ⟨0, by decide, by decide⟩
+  rw [desc_iff_mem_order (coletree_heap 5 5 rxAcol).2 (by decide)] at hd
+  revert hd
   decide +kernel
 
 end Slu.Symb
